@@ -48,7 +48,29 @@ func emitHull(e *Emitter, r *Rng, stride int, flat []float64) {
 			if viaFlat {
 				g = xy.ConvexHullFlat(l, in)
 			} else {
-				g = xy.ConvexHull(geom.NewLineStringFlat(l, in))
+				// the same points held by any geometry type: one line, the rings of a polygon, the parts
+				// of a multi-geometry (a GeometryCollection has no flat coordinates and is not accepted)
+				np := len(in) / stride
+				cut := func(k int) []int { // k parts, every point in exactly one
+					ends := make([]int, 0, k)
+					for j := 1; j < k; j++ {
+						ends = append(ends, (np*j/k)*stride)
+					}
+					return append(ends, len(in))
+				}
+				switch pick := r.Intn(6); {
+				case pick == 0 && np >= 2:
+					g = xy.ConvexHull(geom.NewPolygonFlat(l, in, cut(2+r.Intn(2))))
+				case pick == 1:
+					g = xy.ConvexHull(geom.NewMultiLineStringFlat(l, in, cut(1+r.Intn(3))))
+				case pick == 2:
+					g = xy.ConvexHull(geom.NewMultiPointFlat(l, in))
+				case pick == 3 && np >= 2:
+					ends := cut(2 + r.Intn(2))
+					g = xy.ConvexHull(geom.NewMultiPolygonFlat(l, in, [][]int{ends[:1], ends[1:]}))
+				default:
+					g = xy.ConvexHull(geom.NewLineStringFlat(l, in))
+				}
 			}
 			for i := range in {
 				if in[i] != flat[i] && !(in[i] != in[i] && flat[i] != flat[i]) {
@@ -97,7 +119,10 @@ func genC13(r *Rng, e *Emitter, n int) {
 		}
 		shape := r.Intn(5)
 		flat := make([]float64, 0, np*stride)
-		fractional := g <= 200 && r.chance(1, 4)
+		// (only below the 50-point threshold: the interior-point reduction above it locates points in
+		// the octagon with rounded coordinate differences, exact on integer grids only — the property's
+		// domain — so an extreme point 1e-17 outside an octagon edge may be dropped there)
+		fractional := g <= 200 && np <= 50 && r.chance(1, 3)
 		fscale := []float64{0.1, 0.7, 1.0 / 3, 0.01, 1.1}[r.Intn(5)]
 		foff := []float64{0, 0.1, 0.3, 17.3}[r.Intn(4)]
 		// thin cloud: lattice points hugging a long segment (any of eight orientations), so that the two
